@@ -253,7 +253,7 @@ def parseCmd (s : String) : Option Cmd :=
   | ["get", k] => (parseGKey k).map Cmd.get
   | _ => none
 
-def observe12 (fixPin : Bool) (s : Sys) (err : String) (ret : String) : String :=
+def observe12 (s : Sys) (err : String) (ret : String) : String :=
   let n := s.n
   let fields : List String := [
     "err=" ++ err,
@@ -263,7 +263,7 @@ def observe12 (fixPin : Bool) (s : Sys) (err : String) (ret : String) : String :
   let pf := s.props.map fun e => "P" ++ e.1 ++ "=" ++ showInts ((List.range n).map e.2)
   let vf := s.views.map fun m =>
     "V=" ++ showNats (ids n m) ++ "^" ++ showInts (maskFilter n m s.phaseId) ++ "^"
-      ++ showEx showEntries (if fixPin then phasesInDataFixed s m else phasesInData s m) ++ "^"
+      ++ showEx showEntries (phasesInData s m) ++ "^"
       ++ showEx (fun o => match o with | some x => "s" ++ x | none => "N") (orientationsSym s m)
   ";".intercalate (fields ++ pf ++ vf)
 
@@ -275,12 +275,7 @@ def tabSys (s : Sys) : Sys :=
 
 def runC12 (args : List String) : String :=
   match args with
-  | variant :: ny :: nx :: pid :: mask :: props :: plform :: cmds =>
-    -- `variant` = `v<a><b>`: a = 1 … constructor with the repair of C12-constructor-relinks-not-indexed,
-    -- b = 1 … phases_in_data with the repair of C12-phases-in-data-id-by-name (the harness probes which
-    -- variant the code under test is; 00 = the code as found)
-    let fixInit := variant == "v10" || variant == "v11"
-    let fixPin := variant == "v01" || variant == "v11"
+  | ny :: nx :: pid :: mask :: props :: plform :: cmds =>
     let r : Option String := do
       let ny ← ny.toNat?; let nx ← nx.toNat?
       let n := ny * nx
@@ -294,18 +289,17 @@ def runC12 (args : List String) : String :=
       | some (.error e) => pure ("C=" ++ showErr e)
       | _ =>
         let plv : Option PhaseList := match pl with | some (.ok d) => some d | _ => none
-        let s0 := (if fixInit then initFixed else init) ⟨ny, nx⟩ (fnOfList pid) plv
-          (props.map fun e => (e.1, fnOfList e.2)) (maskOfList mask)
+        let s0 := init ⟨ny, nx⟩ (fnOfList pid) plv (props.map fun e => (e.1, fnOfList e.2)) (maskOfList mask)
         let callerStr := match plv with | some d => showEntries d | none => "N"
         let (_, outs) := cmds.foldl (fun (acc : Sys × List String) c =>
           match c with
           | .op o =>
             let r := step acc.1 o
             let s' := tabSys r.1
-            (s', acc.2 ++ [observe12 fixPin s' (match r.2 with | some e => e.toString | none => "-") "-"])
+            (s', acc.2 ++ [observe12 s' (match r.2 with | some e => e.toString | none => "-") "-"])
           | .get k =>
-            (acc.1, acc.2 ++ [observe12 fixPin acc.1 "-" (showEx showEntries (PhaseList.getItem acc.1.phases k))]))
-          (s0, ["C=" ++ callerStr ++ ";" ++ observe12 fixPin s0 "-" "-"])
+            (acc.1, acc.2 ++ [observe12 acc.1 "-" (showEx showEntries (PhaseList.getItem acc.1.phases k))]))
+          (s0, ["C=" ++ callerStr ++ ";" ++ observe12 s0 "-" "-"])
         pure (" | ".intercalate outs)
     match r with
     | some s => s
